@@ -11,6 +11,8 @@
 //!      belongs to the rule (DESIGN.md Appendix C).
 #[path = "c05/genx.rs"]
 mod genx;
+#[path = "c05/graphx.rs"]
+mod graphx;
 
 use genx::*;
 use nitrogql_ast::{
@@ -491,7 +493,7 @@ impl<'a> Ctx<'a> {
                                 stream: "O",
                                 signature: format!("sound:{rule}@{class}"),
                                 what: format!(
-                                    "the schema breaks rule '{rule}' (position class {class}; confirmed by the spec) but the real check reports {}",
+                                    "accepted-invalid: the schema breaks rule '{rule}' (position class {class}; confirmed by the spec) but the real check reports {}",
                                     if real.diags.is_empty() { "nothing".to_string() } else { format!("only {:?}", real.diags.iter().map(|d| d.kind.clone()).collect::<BTreeSet<_>>()) }
                                 ),
                             });
@@ -605,6 +607,67 @@ fn render_files(rng: &mut Rng, doc: &TsDoc, features: &mut BTreeSet<String>) -> 
         .collect()
 }
 
+/// like `render_files`, but with 2-3 files and every `extend` item in a file OTHER than the one that holds
+/// the definition it extends (a fault that exists only after the extensions of another file are merged)
+fn render_files_ext_elsewhere(rng: &mut Rng, doc: &TsDoc, features: &mut BTreeSet<String>) -> Vec<String> {
+    let nfiles = 2 + rng.below(2);
+    let mut files: Vec<TsDoc> = (0..nfiles).map(|_| TsDoc::default()).collect();
+    let mut home: HashMap<String, usize> = HashMap::new();
+    for it in &doc.items {
+        if let TsItem::TypeDef(t) = it {
+            let k = rng.below(nfiles);
+            home.insert(t.name.clone(), k);
+            files[k].items.push(it.clone());
+        }
+    }
+    for it in &doc.items {
+        match it {
+            TsItem::TypeDef(_) => {}
+            TsItem::TypeExt(t) => {
+                let k = match home.get(&t.name) {
+                    Some(h) => (h + 1 + rng.below(nfiles - 1)) % nfiles,
+                    None => rng.below(nfiles),
+                };
+                files[k].items.push(it.clone());
+            }
+            _ => {
+                let k = rng.below(nfiles);
+                let at = rng.below(files[k].items.len() + 1);
+                files[k].items.insert(at, it.clone());
+            }
+        }
+    }
+    files.retain(|f| !f.items.is_empty());
+    features.insert(format!("files:{}", files.len()));
+    features.insert("files:extensions-elsewhere".into());
+    files.iter_mut().map(|d| render_tsdoc(d, Style::canonical(), rng.fork()).0).collect()
+}
+
+/// insert the items of a graph gadget at random places of the document and put its directive applications
+/// at some site outside the gadget (never on an argument of a directive definition: that would add edges
+/// to the directive reference graph)
+fn place_gadget(rng: &mut Rng, items: &mut Vec<TsItem>, g: &graphx::Gadget) {
+    for it in &g.items {
+        let at = rng.below(items.len() + 1);
+        items.insert(at, it.clone());
+    }
+    for d in &g.apply {
+        let ss: Vec<(Site, &'static str, bool)> = sites(items)
+            .into_iter()
+            .filter(|(site, _, _)| match site {
+                Site::DirArg(..) => false,
+                Site::Schema(_) => true,
+                Site::Type(k) | Site::Field(k, _) | Site::FieldArg(k, _, _) | Site::EnumValue(k, _) | Site::InputField(k, _) => !items[*k].name().unwrap_or("").starts_with("Zg"),
+            })
+            .collect();
+        if ss.is_empty() {
+            continue;
+        }
+        let (site, _, _) = ss[rng.below(ss.len())].clone();
+        dirs_at(items, &site).push(d.clone());
+    }
+}
+
 fn gen_valid(rng: &mut Rng, tagged: bool) -> (TsDoc, BTreeSet<String>) {
     let cfg = GenCfg { hostile_text: rng.chance(1, 5), ..GenCfg::default() };
     let mut features = BTreeSet::new();
@@ -640,6 +703,24 @@ fn corpus() -> Vec<Case> {
         v("interface A { a: A }\ninterface B implements A { a: B }\ntype Query implements B & A { a: Query }\n"),
         v("type Query { a: Int }\ntype T { t: Int }\nunion U = T\ninterface I { u: U us: [U] }\ntype O implements I { u: T us: [T!]! }\n"),
         m("type A { a: Int }\ntype A { b: Int }\ntype Query { a: Int }\n", "dup-type-defs", "kind:object"),
+        // cycles in the interface hierarchy (no interface lists itself; every interface lists all the others):
+        // the only broken requirement is "A must declare A because B implements A"
+        m("interface CA implements CB { x: Int }\ninterface CB implements CA { x: Int }\ntype Query { a: Int }\n", "missing-transitive", "interface-cycle-in-definitions"),
+        m("interface CA implements CB & CC { x: Int }\ninterface CB implements CC & CA { x: Int }\ninterface CC implements CA & CB { x: Int }\ntype Query implements CA & CB & CC { x: Int }\n", "missing-transitive", "interface-cycle-in-definitions"),
+        Case {
+            files: vec!["interface CA { x: Int }\ninterface CB implements CA { x: Int y: Int }\ntype Query { a: Int }\n".into(), "extend interface CA implements CB { y: Int }\n".into()],
+            mode: "mutation".into(),
+            rule: Some("missing-transitive".into()),
+            class: Some("interface-cycle-closed-by-extension".into()),
+            features: vec!["corpus".into()],
+        },
+        // diamond whose bottom omits the top; chain with a deep omission
+        m("interface DT { t: Int }\ninterface DL implements DT { t: Int }\ninterface DR implements DT { t: Int }\ntype Query implements DL & DR { t: Int }\n", "missing-transitive", "dag-omission:object"),
+        v("interface DT { t: Int }\ninterface DL implements DT { t: Int }\ninterface DR implements DT { t: Int }\ninterface DB implements DL & DR & DT { t: Int }\ntype Query implements DB & DL & DR & DT { t: Int }\n"),
+        // directive reference cycles closed through types / extensions; a legal cycle of input objects
+        m("directive @ca(x: CE) on ENUM_VALUE | ARGUMENT_DEFINITION\ndirective @cb(y: Int @ca) on ENUM_VALUE | ARGUMENT_DEFINITION\nenum CE { A }\nextend enum CE { B @cb }\ntype Query { a: Int }\n", "directive-recursion", "cycle:mixed-in-extension"),
+        v("input NA { s: String! next: NB }\ninput NB { v: Int back: NA list: [NA!] }\ndirective @dn(i: NA) on OBJECT\ntype Query @dn(i: {s: \"a\", next: {back: {s: \"b\", next: {list: [{s: \"c\"}]}}}}) { a: Int }\n"),
+        m("input NA { s: String! next: NB }\ninput NB { v: Int back: NA list: [NA!] }\ndirective @dn(i: NA) on OBJECT\ntype Query @dn(i: {s: \"a\", next: {back: {s: \"b\", next: {list: [{s: \"c\", v: \"x\"}]}}}}) { a: Int }\n", "directive-args", "nested-input-object:string-for-int"),
         // different kinds, same name: passes the resolver, reaches the checker with two definitions of A
         Case { files: vec!["type A { a: Int }\ninterface A { b: Int }\nunion U = A\ntype Query implements A { a: A b: Int }\n".into()], mode: "junk".into(), rule: None, class: None, features: vec!["corpus".into()] },
         Case { files: vec!["directive @d on OBJECT\ndirective @d(x: Int @d) on ARGUMENT_DEFINITION | OBJECT\ntype Query @d { a: Int }\n".into()], mode: "junk".into(), rule: None, class: None, features: vec!["corpus".into()] },
@@ -704,6 +785,7 @@ fn main() {
     let n_mut = args.budget(900, 12000) * scale;
     let n_junk = args.budget(150, 2000) * scale;
     let n_pairs = args.budget(300, 3000) * scale;
+    let n_graph = args.budget(480, 6000) * scale;
 
     // ---- valid-by-construction ------------------------------------------------------------------
     let mut batch = vec![];
@@ -784,6 +866,51 @@ fn main() {
     for chunk in pairs.chunks(100) {
         ctx.run(chunk);
     }
+
+    // ---- graph-shaped gadgets: implements graph, directive reference graph, input-object nesting --------
+    // (chains / diamonds / DAGs = valid; cycles, lassos, deep omissions, deep literal faults = one fault)
+    for k in 0..n_graph {
+        let family = graphx::FAMILIES[k % graphx::FAMILIES.len()];
+        let faulty = (k / graphx::FAMILIES.len()) % 3 != 0;
+        let g = match graphx::gen_gadget(&mut rng, family, faulty) {
+            Some(g) => g,
+            None => {
+                ctx.rep.count(&format!("graph-no-place:{family}"));
+                continue;
+            }
+        };
+        // a small base (the gadget alone next to a root type) or a full generated schema
+        let (mut items, mut features) = if rng.chance(1, 3) {
+            (vec![obj("Query", &[], vec![fd("q", Ty::named("Int"))])], BTreeSet::new())
+        } else {
+            let (doc, f) = gen_valid(&mut rng, !faulty);
+            (doc.items, f)
+        };
+        place_gadget(&mut rng, &mut items, &g);
+        for f in &g.features {
+            features.insert(f.clone());
+        }
+        let doc = TsDoc { items };
+        let files = if rng.chance(1, 3) { render_files_ext_elsewhere(&mut rng, &doc, &mut features) } else { render_files(&mut rng, &doc, &mut features) };
+        for f in &g.features {
+            ctx.rep.count(&format!("feature:{f}"));
+        }
+        ctx.rep.count(&format!("graph:{family}:{}", if faulty { "fault" } else { "valid" }));
+        let case = match g.rule {
+            Some(rule) => Case { files, mode: "mutation".into(), rule: Some(rule.into()), class: Some(g.class.clone()), features: features.into_iter().collect() },
+            None => Case { files, mode: "valid".into(), rule: None, class: None, features: features.into_iter().collect() },
+        };
+        if k < 6 {
+            ctx.rep.sample(json!({"mode": case.mode, "rule": case.rule, "class": case.class, "files": case.files}));
+        }
+        batch.push(case);
+        if batch.len() >= 100 {
+            ctx.run(&batch);
+            batch.clear();
+        }
+    }
+    ctx.run(&batch);
+    batch.clear();
 
     rep.write(&args);
 }
